@@ -33,6 +33,9 @@ const TREE: &[(&str, usize)] = &[
     ("lib/src/gen/g.rs", 11),
     ("docs/readme.md", 3),
     ("tmp.bak", 1),
+    ("scripts/gen.py", 9),
+    ("scripts/deep/tool.py", 2),
+    ("lib/scripts/other.py", 7),
     ("src/old.bak", 1),
 ];
 
@@ -76,6 +79,11 @@ fn gen_config(rng: &mut Rng) -> (String, String) {
         c += &format!("[[content.rules]]\npattern = \"{p}\"\nmax_lines = 4\n");
     }
     if rng.chance(1, 2) {
+        // `.py` is not in content.extensions: these files are in scope through this rule only
+        let p = pick(rng, "content.rules-ext", "scripts/**/*.py", "**/scripts/**/*.py");
+        c += &format!("[[content.rules]]\npattern = \"{p}\"\nmax_lines = 5\n");
+    }
+    if rng.chance(1, 2) {
         let p = pick(rng, "content.rules2", "tests/*.rs", "**/tests/*.rs");
         c += &format!("[[content.rules]]\npattern = \"{p}\"\nmax_lines = 100\n");
     }
@@ -96,9 +104,16 @@ fn gen_config(rng: &mut Rng) -> (String, String) {
         if rng.chance(2, 3) {
             let p = pick(rng, "structure.rules", "src", "**/src");
             c += &format!("[[structure.rules]]\nscope = \"{p}\"\nmax_files = 1\n");
-            if rng.chance(1, 2) {
-                c += "siblings = [{ match = \"*.tsx\", require = \"{stem}.test.tsx\" }]\n";
-                tag.borrow_mut().push("siblings".into());
+            match rng.below(4) {
+                0 | 1 => {
+                    c += "siblings = [{ match = \"*.tsx\", require = \"{stem}.test.tsx\" }]\n";
+                    tag.borrow_mut().push("siblings".into());
+                }
+                2 => {
+                    c += "siblings = [{ group = [\"{stem}.tsx\", \"{stem}.test.tsx\"] }]\n";
+                    tag.borrow_mut().push("sibling-group".into());
+                }
+                _ => {}
             }
             if rng.chance(1, 3) {
                 c += "deny_files = [\"lib.rs\"]\n";
@@ -211,6 +226,9 @@ fn spelling_case(sink: &mut Sink, rng: &mut Rng, bin: &str, scratch: &str) {
             }
             if (has("content.rules:root") || has("content.rules:any")) && !any_under("src/gen/", "[content]") && limit_of("src/main.rs [content]").is_some_and(|l| l != "4") {
                 problems.push(format!("key=raw-path-matching the content rule for src/** does not apply to src/main.rs (limit {:?})", limit_of("src/main.rs [content]")));
+            }
+            if (has("content.rules-ext:root") || has("content.rules-ext:any")) && !rows.contains_key("scripts/gen.py [content]") {
+                problems.push("key=raw-path-matching the content rule for scripts/**/*.py does not put scripts/gen.py in scope".to_string());
             }
             if (has("structure.rules:root") || has("structure.rules:any")) && !has("structure.rules2:root") && !has("structure.rules2:any") {
                 match limit_of("src [{\"type\":\"file_count\"}]") {
